@@ -220,9 +220,12 @@ class G:
                 inner = "(" + inner + ", " + inner2 + ")" if "," not in inner and "?" not in inner else inner
             return "[" + inner + "]", ("Q" if t == "I" else "QS" if t == "S" else "QX")
         if k == "block":
-            # a closure that pushes a value, applied on the spot
+            # a closure that pushes a value, applied on the spot -- or left on
+            # the stack as a value that can travel into another execution
             inner, t = self.push(stack, depth + 1)
             self.has_closure = True
+            if r.random() < 0.25:
+                return "{" + inner + "}", "B"
             return "{" + inner + "} apply", t
         return self.int_lit(), "I"
 
@@ -288,7 +291,7 @@ class G:
         if k is None:
             k = self.r.randint(0, 4)
         self.has_bomb = True
-        return "?(pos %d ?eq %s)" % (k, " ".join(["drop"] * 14))
+        return "?(pos %d !eq || %s)" % (k, " ".join(["drop"] * 14))
 
     # -------- statements: returns (text, newstack)
     def stmt(self, stack, depth):
@@ -354,6 +357,20 @@ class G:
             return t, stack[:len(stack) - self._fmt_pops] + ["S"]
         if k == "let":
             n = self.fresh()
+            lk = r.random()
+            if lk < 0.2:
+                # two names bound at once
+                n2 = self.fresh()
+                t1, ty1 = self.push(stack, depth + 1)
+                t2, ty2 = self.push(stack + [ty1], depth + 1)
+                self.names += [(n, ty1), (n2, ty2)]
+                return "let %s %s := %s %s;" % (n, n2, t1, t2), stack
+            if lk < 0.3 and stack:
+                # names bound straight from what is on the stack; with fewer
+                # slots than names this fails at run time, half-way through
+                n2 = self.fresh()
+                self.names += [(n, stack[-1]), (n2, stack[-1])]
+                return "let %s %s := ;" % (n, n2), stack
             t, ty = self.push(stack, depth + 1)
             self.names.append((n, ty))
             return "let %s := %s;" % (n, t), stack
@@ -604,6 +621,11 @@ def gen_program(rng, in_types, dwarf=False, bombs=True, ticks=True):
 # Hand-written programs that put every stateful construct under a multi-stack
 # stream; the generator mixes these in so that reach does not depend on luck.
 SEED_PROGRAMS_CORE = [
+    "(1, 2) {1 add}", "{1 add}", "let X := 5; {X add}", "(1, 2) (|A| {A 10 mul})", "[{1}, {2}] elem",
+    "1 2 let A B := ; A B add", "let A B := ; A B add", "(1, 2) 3 let A B := ; [A, B]",
+    "let A B := 1 2; B A", "(1, 2) let A B := dup dup 1 add; A B mul",
+    "(1 2 == 3 4) 5", "1 (2 == 2) 3", "(1, 2) (dup == 2 || dup 1 add == 2)",
+    "add", "(1, 2) add", "length", "elem", "(\"a\", 1) 2 add", "dup add", "swap add", "2 add",
     "1, 2, 3",
     "(1, 2, 3) (10, 20)",
     "[1, 2, 3] elem",
@@ -641,13 +663,41 @@ SEED_PROGRAMS_CORE = [
     "(1, 2) ?(3, 4) !(?(1 2 ?eq))",
     "(\"a\", \"b\") (=~ \"a\") \"%s!\"",
     "[1, 2, 3] (|L| L elem (|E| [L elem (> E)]))",
-    "(1, 2, 3) ?(pos 1 ?eq drop drop drop drop drop drop)",
-    "[(1, 2, 3) ?(pos 2 ?eq drop drop drop drop drop drop)]",
-    "(1, 2) \"%( ?(pos 1 ?eq drop drop drop drop drop) %)\"",
-    "(1, 2, 3) {?(pos 1 ?eq drop drop drop drop drop)} apply",
-    "(1, 2, 3) if ?(pos 2 ?eq drop drop drop drop) then 1 else 2",
-    "0 (1 add ?(6 ?lt) ?(dup 4 ?eq drop drop drop drop || ()))*",
+    "(1, 2, 3) ?(pos 1 !eq || drop drop drop drop drop drop)",
+    "[(1, 2, 3) ?(pos 2 !eq || drop drop drop drop drop drop)]",
+    "(1, 2) \"%( ?(pos 1 !eq || drop drop drop drop drop) %)\"",
+    "(1, 2, 3) {?(pos 1 !eq || drop drop drop drop drop)} apply",
+    "(1, 2, 3) if ?(pos 2 !eq || drop drop drop drop) then 1 else 2",
+    "0 (1 add ?(6 ?lt) ?(dup 4 !eq || drop drop drop drop))*",
 ]
+
+DW_DIE_WORDS = ["name", "high", "low", "address", "label", "offset", "child", "parent", "root", "attribute",
+                "abbrev", "raw", "cooked", "@AT_name", "@AT_type", "@AT_ranges", "@AT_location", "@AT_high_pc",
+                "@AT_low_pc", "@AT_const_value", "@AT_decl_file", "@AT_decl_line", "@AT_byte_size",
+                "@AT_data_member_location", "@AT_encoding", "@AT_sibling", "@AT_stmt_list", "@AT_language",
+                "@AT_producer", "@AT_comp_dir", "@AT_frame_base", "@AT_import", "@AT_upper_bound",
+                "attribute value", "attribute label", "attribute form", "attribute address",
+                "?haschildren", "?root", "!root", "?TAG_subprogram", "?TAG_variable", "?AT_name", "!AT_name",
+                "?AT_location", "@AT_location elem", "@AT_location elem label", "@AT_location elem value",
+                "@AT_location address", "abbrev attribute", "abbrev code", "abbrev label"]
+
+
+def gen_dw_simple(rng):
+    """Short programs made of plain DWARF words: cheap, and between them they
+    touch every producer and every libdw accessor."""
+    head = rng.choice(["entry", "entry", "entry", "unit root", "unit entry", "raw entry", "entry ?root",
+                       "entry child", "unit root child"])
+    n = rng.choice([1, 1, 2, 2, 3])
+    words = [rng.choice(DW_DIE_WORDS) for _ in range(n)]
+    k = rng.random()
+    if k < 0.15:
+        return "[%s %s] length" % (head, " ".join(words))
+    if k < 0.25:
+        return "%s ?(%s) %s" % (head, words[0], " ".join(words[1:]) or "offset")
+    if k < 0.33:
+        return "[%s %s] drop %s %s" % (head, words[0], head, " ".join(words[1:]) or "name")
+    return head + " " + " ".join(words)
+
 
 SEED_PROGRAMS_DW = [
     "entry", "unit", "unit root", "entry ?root child", "entry parent",
@@ -665,8 +715,8 @@ SEED_PROGRAMS_DW = [
     "(entry, unit root) offset", "entry if ?root then child else parent",
     "[entry] length", "[entry ?root] elem child", "entry ?root (child ?0)*",
     "entry root", "entry parent root", "dup entry swap unit",
-    "entry ?(pos 3 ?eq drop drop drop drop drop drop)",
-    "entry child ?(pos 1 ?eq drop drop drop drop drop drop)",
+    "entry ?(pos 3 !eq || drop drop drop drop drop drop)",
+    "entry child ?(pos 1 !eq || drop drop drop drop drop drop)",
     "entry {child} apply", "let D := ; D entry (|E| D unit root (== E))",
     "name", "raw name", "entry ?root name", "entry @AT_decl_file", "entry ?TAG_variable @AT_type",
     "entry attribute form", "entry ?haschildren", "unit version", "unit offset",
@@ -687,8 +737,37 @@ TOKENS = ["(", ")", "?(", "!(", "[", "]", "`[", "``[", "{", "}", "?{", "!{", "*"
           "A", "B", ".x", "~", "^", "&", "%", "entry", "child", "elem", "apply", "T_CONST"]
 
 
+# One (or more) text for every way the lexer, the grammar actions and the
+# builder can reject a query.
+REJECT_SEEDS = [
+    '"abc', 'r"abc', '"a%( 1', '"a%( "b', '"%( ) %)"', '"%( ( %)"', '"%( [ %)"', '"\\x4"', '"\\xzz"', '"\\8"',
+    '"a"\\', '"a"\\ ', '"a"\\ x', '"%( "%( 1 %)" ) %)"', '"%( "abc %)"', '"%( 1 ) %)"', '"%(%)%("',
+    '\x01', '\x7f', '\xff', '`', '``', '`1', '$', '~a', '1 ^ 2',
+    '123foo', '0x', '0xg', '0b2', '08', '0o8', '18446744073709551616', '-18446744073709551616', '0x10000000000000000',
+    '?18446744073709551616', '!99999999999999999999', '?1x', '!0b2',
+    'let "a%sb" := 1;', 'let "%( 1 %)" := 1;', 'let "a%sb" := (1, 2) [3, 4];', 'let "x" "y" := 1;', 'let r"a%db" := ;',
+    'let "foo" := 1; foo', 'let "" := 1;',
+    '1 )', '(', '[', '{', '?(', '!{', '1 ]', '1 }', 'if 1 then 2', 'if 1 else 2', 'then', 'let A 1;', 'let := 1;', 'let A := 1',
+    '(|A 1)', '(|A| A', '[|| 1]', '1 ,, 2', '|| ||', '1 :', ': 1', 'A:', '* 1', '1 ?? ?', '; 1',
+    'nosuchword', '?nosuch', '@AT_nosuch', 'A', 'let A := 1; let A := 2;', '(|A| let A := 1;)', '(|A A| A)',
+    'let A := A;', '{A}', '?(let A := 1;) A', '(let A := 1;, 2) A', 'if 1 then let A := 1; else 2 A',
+]
+
+
 def gen_hostile(rng):
     """A byte string meant to stress the lexer/parser: returns latin-1 str."""
+    k = rng.random()
+    if k < 0.14:
+        t = rng.choice(REJECT_SEEDS)
+        e = rng.random()
+        if e < 0.5:
+            return t
+        base, _ = gen_program(rng, [], bombs=False)
+        if e < 0.7:
+            return base + " " + t
+        if e < 0.85:
+            return t + " " + base
+        return rng.choice(["(", "[", "?(", "{", "\"%( ", "if 1 then ", "let Q := "]) + t
     k = rng.random()
     if k < 0.08:
         return chr(rng.randrange(256))
@@ -729,7 +808,10 @@ def gen_hostile(rng):
     if k < 0.78:
         # deep nesting
         o, c = rng.choice([("(", ")"), ("[", "]"), ("?(", ")"), ("{", "}"), ("\"%( ", " %)\"")])
-        n = rng.choice([1, 5, 50, 300])
+        n = rng.choice([1, 5, 50, 300, 300, 1200, 3000, 6000, 12000])
+        if n > 300 and rng.random() < 0.5:
+            o, c = rng.choice([("(", ")"), ("[", "]"), ("\"%( ", " %)\""), ("1 ", ""), ("(1, ", ")"), ("1 || ", ""),
+                               ("(|A| ", ")"), ("A ", "")])
         miss = rng.choice([0, 0, 1, -1])
         return o * n + "1" + c * max(0, n + miss)
     if k < 0.88:
